@@ -1726,12 +1726,15 @@ class SpaceUpdater(SharedSpaceOperations):
         for n in nx.descendants(self._graph, node):
             self._graph.get_mro(n)
 
-        if refs:
-            # Check name conflict between refs and the cells to be derived
-            for b in self._graph.get_mro(node)[1:]:
-                conflict = set(refs) & set(self._graph.to_space(b).cells)
-                if conflict:
-                    raise NameError("name conflict: %s" % conflict)
+        # Check name conflict between the cells and the refs to be derived
+        # from the bases, and the refs given
+        names = {"cells": set(), "own_refs": set(refs or ())}
+        for b in self._graph.get_mro(node)[1:]:
+            for attr in names:
+                names[attr].update(getattr(self._graph.to_space(b), attr))
+        conflict = names["cells"] & names["own_refs"]
+        if conflict:
+            raise NameError("name conflict: %s" % conflict)
 
         if container is None:
             container = parent._named_spaces
